@@ -835,6 +835,11 @@ func (c *Conn) advanceFrame() (int, error) {
 		c.readRemaining = int64(binary.BigEndian.Uint64(p))
 	}
 
+	// RFC 6455: the most significant bit of the 64-bit payload length MUST be 0.
+	if c.readRemaining < 0 {
+		return noFrame, c.handleProtocolError("invalid payload length")
+	}
+
 	// 4. Handle frame masking.
 
 	if mask != c.isServer {
